@@ -471,6 +471,47 @@ impl<'a> Gen<'a> {
         }
     }
 
+    /// directed scenario for C11 / C09: move the clock to the instant a farm expires (end of its last
+    /// epoch + expiration time), one second / one epoch around it, then run an operation that consults
+    /// `is_farm_expired` (farm creation on the same LP token = automatic close; expand; emergency exit)
+    pub fn op_scenario_farm_expiry_boundary(&mut self) {
+        let fs = self.farms();
+        if fs.is_empty() { return self.op_create_farm(); }
+        let f = fs[self.r.below(fs.len() as u64) as usize].clone();
+        let cfg: mantra_dex_std::farm_manager::Config = self.run.h.w.app.wrap()
+            .query_wasm_smart(self.run.h.w.a("fm"), &mantra_dex_std::farm_manager::QueryMsg::Config {}).unwrap();
+        let start_of = |this: &Self, id: u64| -> Option<u64> {
+            let r: Result<mantra_dex_std::epoch_manager::EpochResponse, _> = this.run.h.w.app.wrap()
+                .query_wasm_smart(this.run.h.w.a("em"), &mantra_dex_std::epoch_manager::QueryMsg::Epoch { id });
+            r.ok().map(|e| e.epoch.start_time.nanos())
+        };
+        // candidates: (end or end+1) start + expiration, then -1s / exact / +1s
+        let which = f.preliminary_end_epoch + self.r.below(2);
+        let Some(base) = start_of(self, which) else { return };
+        let target = base + cfg.farm_expiration_time * 1_000_000_000;
+        let target = match self.r.below(3) { 0 => target.saturating_sub(1_000_000_000), 1 => target, _ => target + 1_000_000_000 };
+        let now = self.run.h.w.now_ns();
+        if target > now { self.emit(format!("advance {}", target - now)); }
+        let lp = self.run.h.w.cd(&f.lp_denom);
+        match self.r.below(3) {
+            0 | 1 => {
+                let cur = self.cur_epoch();
+                let aa = 2000 + self.r.below(100_000) as u128;
+                let asset = coin(aa, "uusdc");
+                let funds = self.farm_fee_funds(&asset);
+                let sender = pick_user(self.r);
+                let tag = self.r.below(10_000);
+                self.emit(format!("tx {} {} fm createfarm {} {} {} uusdc {} x{}", sender, funds_str(&funds), lp, cur + 1, cur + 5, aa, tag));
+            }
+            _ => {
+                let owner = self.run.h.w.n(f.owner.as_str());
+                let rate = f.emission_rate.u128().max(1);
+                let ad = self.run.h.w.cd(&f.farm_asset.denom);
+                self.emit(format!("tx {} {} fm expandfarm {} - - {} {} {}", owner, funds_str(&[coin(rate, ad.clone())]), lp, ad, rate, f.identifier));
+            }
+        }
+    }
+
     pub fn op_fm_config(&mut self) {
         let sender = if self.r.chance(5, 6) { "owner" } else { pick_user(self.r) };
         let mut f: Vec<String> = vec!["-".into(); 11];
@@ -568,6 +609,7 @@ pub fn gen_fm_case(r: &mut Rng, id: u64, len: u64, faults: bool, o: &mut Out) {
             35 => g.op_own("fm"),
             36 => g.op_donate(),
             37 => g.op_scenario_shared_owner_emergency(),
+            38 => g.op_scenario_farm_expiry_boundary(),
             _ => g.op_advance(),
         }
     }
